@@ -101,6 +101,7 @@ struct QModel {
 // ------------------------------------------------------------------ interpreter
 static std::vector<std::vector<std::string>> g_ops; static std::vector<LinOp> H; static std::vector<int> g_initial;
 static bool g_bounded, g_witness; static int g_witness_mode = 0; static long g_cap; static int g_nt;
+static std::vector<size_t> inflight_idx, must_return;   // ops that were really blocked when an abort() was issued: they must return
 static std::vector<int> inflight_kind;            // per scenario thread index: kind of the op in flight or -1
 static std::vector<int> thr_sched_id;             // scheduler id per scenario thread index
 static int abort_window = 0;                      // number of aborted-in-flight pops that have not returned yet
@@ -142,7 +143,7 @@ template <class Q, class E> struct Runner {
             if (n_inflight > 0) n_overlap++;
             n_inflight++;
             size_t idx = H.size(); o.kind = c == 'P' || c == 'E' ? K_PUSH : c == 'Y' ? K_TRYPUSH : c == 'O' ? K_POP : c == 'Q' ? K_TRYPOP : K_ABORT;
-            inflight_kind[t] = o.kind; o.inv = vs_now(); H.push_back(o);
+            inflight_kind[t] = o.kind; inflight_idx[t] = idx; o.inv = vs_now(); H.push_back(o);
             long fb0 = 0; (void)fb0;
             bool ok = false, threw = false, aborted = false; long ret = 0; bool intact = true;
             try {
@@ -154,6 +155,7 @@ template <class Q, class E> struct Runner {
                 else if (c == 'A') {
                     if constexpr (std::is_same<Q, tbb::concurrent_bounded_queue<E>>::value) {
                         if (!g_witness) for (int i = 0; i < g_nt; i++) if (i != t && inflight_kind[i] == K_POP) { in_window[i] = 1; abort_window++; }
+                        for (int i = 0; i < g_nt; i++) if (i != t && (inflight_kind[i] == K_POP || inflight_kind[i] == K_PUSH) && vs_thread_state(thr_sched_id[i]) == 1) must_return.push_back(inflight_idx[i]);
                         q.abort(); ok = true;
                     }
                 }
@@ -188,6 +190,7 @@ template <class Q, class E> struct Runner {
 template <class Q, class E> void Runner<Q, E>::judge(bool deadlocked, const char* detail) {
     Q& q = *(Q*)g_q; g_armed = false;
     if (!g_witness && abort_window_shape()) excluded_exit("excluded_abort_window_posthoc");
+    for (size_t i : must_return) if (H[i].pending) vs_violation("ABORT-MISSED", "%s of t%d was blocked when abort() was called (and abort() returned) but it never returned %s", KN[H[i].kind], H[i].thread, lin_dump(H, KN).c_str());
     // O(n) accounting
     std::map<int, int> pushed, popped; for (int v : g_initial) pushed[v]++;
     long blocked_pops = 0, blocked_pushes = 0;
@@ -249,7 +252,7 @@ void h_run(Case& c) {
         if (w[0] == "queue") { g_bounded = kvl(l, "bounded", 0) != 0; g_cap = kvl(l, "cap", 1); g_elem = (int)kvl(l, "elem", 0); g_nt = (int)kvl(l, "threads", 2); g_throw_at = kvl(l, "throw", 0); g_witness_mode = (int)kvl(l, "witness", 0); g_witness = g_witness_mode != 0; }
         else if (w[0] == "t") { int t = atoi(w[1].c_str()); if ((int)g_ops.size() <= t) g_ops.resize(t + 1); g_ops[t].assign(w.begin() + 2, w.end()); }
     }
-    g_ops.resize(g_nt); inflight_kind.assign(g_nt, -1); in_window.assign(g_nt, 0);
+    g_ops.resize(g_nt); inflight_kind.assign(g_nt, -1); inflight_idx.assign(g_nt, 0); in_window.assign(g_nt, 0);
     H.reserve(256);
     vs_begin(c.sched.c_str());
     switch (g_elem) {      // one size per items-per-page class: 32,16,8,4,2,1 items
